@@ -46,6 +46,9 @@ pub fn run(ctx: &Ctx) -> CheckResult {
                 depth: if side { d_int - 2 } else { d_int },
                 label: "S_int+reset",
             });
+            if !side {
+                spaces.push(Space { cfg, alphabet: s_ops(&S_ULP), depth: d_rough, label: "S_ulp" });
+            }
             spaces.push(Space { cfg, alphabet: with_reset(s_ops(&S_TINY)), depth: if side { d_rough - 2 } else { d_rough }, label: "S_tiny+reset" });
             spaces.push(Space {
                 cfg,
@@ -174,6 +177,17 @@ pub fn run(ctx: &Ctx) -> CheckResult {
                 }
             }
         }
+        // periods beyond 2^16: still warming up after 65 536 inputs (no padding may enter the statistic)
+        for &n in &[65_537usize, 100_000] {
+            let len = 70_000;
+            for cfg in subjects(n, false) {
+                if cfg.kind == Kind::Mad && !th {
+                    continue; // O(window) per step
+                }
+                let base: std::sync::Arc<Vec<Op>> = std::sync::Arc::new((0..len).map(|i| Op::S(if i % 3 == 0 { 2.5 + (i % 11) as f64 } else { 1000.0 - (i % 7) as f64 * 0.5 })).collect());
+                fams.push(Family { cfg, base, base_name: "zigzag-70000", deviations: vec![], check_at: vec![1, 2, 1000, 65_535, 65_536, 65_537, 65_540, len] });
+            }
+        }
         fam_runs = fams.len() as u64;
         let chunks: Vec<&[Family]> = fams.chunks(64).collect();
         let outs = par_run(ctx, &chunks, |_, chunk| {
@@ -193,9 +207,15 @@ pub fn run(ctx: &Ctx) -> CheckResult {
         res.absorb(merge_jobs(outs));
     }
 
+    // Default::default() instances against the reference for the parameters they report
+    if !res.out.failed() {
+        let mut o = JobOut::default();
+        default_instances(PROP, &[Kind::Sma, Kind::Wma, Kind::Sd, Kind::Mad, Kind::Min, Kind::Max, Kind::Bb], &mut o);
+        res.absorb(o);
+    }
     res.rule = "case = (configuration, operation history) replayed on a fresh real instance, output of the last op compared with the from-scratch double-double statistic of the last min(t,n) inputs since reset; distinct by construction (tree nodes / de-duplicated concrete states); non-trivial = oracle applicable and history longer than the window (at least one eviction)".into();
     res.bounds = format!(
-        "seq(S_int+reset, {}), seq(S_rough, {}) and seq(S_tiny(2^-60 unit)+reset, same depth) for n=1..5 x {{SMA,WMA,SD,MAD,MIN,MAX,BB(mult 2; 0,0.5,3,-1 at depth-2)}}; BFS fixpoint over S_int for SMA/WMA/MAD/MIN/MAX n=1..{}; deviation-bounded families (4 base streams, k<=1{} deviations at every position) for periods {:?}",
+        "seq(S_int+reset, {}), seq(S_rough, {}) and seq(S_tiny(2^-60 unit)+reset, same depth), seq(S_ulp = neighbours 1 and 4 ulps apart) for n=1..5 x {{SMA,WMA,SD,MAD,MIN,MAX,BB(mult 2; 0,0.5,3,-1 at depth-2)}}; BFS fixpoint over S_int for SMA/WMA/MAD/MIN/MAX n=1..{}; periods 65537 and 100000 on a 70000-step stream (checked around step 65536); Default::default() instances; deviation-bounded families (4 base streams, k<=1{} deviations at every position) for periods {:?}",
         d_int,
         d_rough,
         d_bfs_n,
